@@ -239,7 +239,11 @@ async fn writer(mut tx: io::Sender, data: Vec<u8>, limit: usize, ops: Vec<WOp>, 
     crate::simnet::bump_progress();
 }
 
-async fn reader(mut rx: io::Receiver, sizes: Vec<usize>, cancel_pct: u64, mut rng: Rng, outp: Arc<Mutex<ReaderOut>>) {
+async fn reader(mut rx: io::Receiver, sizes: Vec<usize>, cancel_pct: u64, mut rng: Rng, outp: Arc<Mutex<ReaderOut>>, late_ms: u64) {
+    // a reader that starts late lets the writer run into back-pressure first
+    if late_ms > 0 {
+        tokio::time::sleep(Duration::from_millis(late_ms)).await;
+    }
     let mut i = 0;
     loop {
         crate::simnet::bump_progress();
@@ -381,13 +385,14 @@ pub fn run_one(run: u64, seed: u64) -> RunOut {
         .collect();
     let read_sizes = if read_sizes.iter().all(|s| *s == 0) { vec![0, 7] } else { read_sizes };
     let read_cancel = *rng.pick(&[0u64, 0, 10]);
+    let reader_late_ms = *rng.pick(&[0u64, 0, 0, 5, 20]);
     let cut: Option<(FaultKind, bool, usize, usize)> =
         (place != Place::Local && rng.chance(25)).then(|| (*rng.pick(&[FaultKind::SinkError, FaultKind::StreamError, FaultKind::Eof]), rng.chance(50), rng.usize_below(60), rng.usize_below(2)));
     let netcfg = draw_netcfg(&mut rng);
     let netcfg2 = draw_netcfg(&mut rng);
     let h1 = *rng.pick(&[0u64, 0, 20, 50]);
     let replay = json!({"run": run, "seed": seed, "place": format!("{place:?}"), "sized": sized, "declared_or_total": total, "planned_bytes": planned, "writer_end": format!("{end:?}"),
-        "writer_ops": ops.iter().take(60).map(|o| format!("{o:?}")).collect::<Vec<_>>(), "read_sizes": read_sizes, "read_cancel_pct": read_cancel, "connection_cut": format!("{cut:?}"),
+        "writer_ops": ops.iter().take(60).map(|o| format!("{o:?}")).collect::<Vec<_>>(), "read_sizes": read_sizes, "read_cancel_pct": read_cancel, "reader_starts_after_ms": reader_late_ms, "connection_cut": format!("{cut:?}"),
         "cfg_a": cfg_json(&cfg_a), "cfg_b": cfg_json(&cfg_b), "net": netcfg_class(&netcfg), "net2": netcfg_class(&netcfg2), "h1_pct": h1});
     let mut out = RunOut::default();
     let panics0 = crate::mem::panic_count();
@@ -453,7 +458,7 @@ pub fn run_one(run: u64, seed: u64) -> RunOut {
             eprintln!("c18: halves placed; plan {replay}");
         }
         let wt = crate::sched::spawn(writer(tx.take().unwrap(), data.clone(), planned, ops.clone(), end, sized.then_some(total), wout.clone(), mover));
-        let rt = crate::sched::spawn(reader(rx.take().unwrap(), read_sizes.clone(), read_cancel, rng.fork(5), rout.clone()));
+        let rt = crate::sched::spawn(reader(rx.take().unwrap(), read_sizes.clone(), read_cancel, rng.fork(5), rout.clone(), reader_late_ms));
         for _ in 0..400 {
             settle().await;
             if wt.is_finished() && rt.is_finished() {
